@@ -184,5 +184,5 @@ func genWS(t *rapid.T) WSCase {
 }
 
 func TestWebsocketFrames(t *testing.T) {
-	vfrun.Run(t, vfrun.Prop[WSCase]{Property: "C10", Name: "TestWebsocketFrames", Gen: genWS, Check: checkWS}, vfrun.N(1500, 60000))
+	vfrun.Run(t, vfrun.Prop[WSCase]{Property: "C10", Name: "TestWebsocketFrames", Gen: genWS, Check: checkWS}, vfrun.N(1500, 200000))
 }
